@@ -79,3 +79,12 @@ EDITS += [
     {"id": "unit-step-arange", "expect": "no-alarm", "file": R,
      "old": "            targets = list(range(start, stop))", "new": "            targets = [int(v) for v in np.arange(start, stop, 1)]"},
 ]
+
+# round 7: read-only arguments (C12.O6) and N18
+EDITS += [
+    {'id': 'inplace-on-asarray', 'expect': 'fire', 'rule': 'C12.O6', 'file': R, 'old': '    Y = y / y_step\n', 'new': '    Y = np.asarray(y, dtype=np.float64)\n    Y /= y_step\n'},
+    {'id': 'inplace-on-parameter', 'expect': 'fire', 'rule': 'C12.O6', 'file': R, 'old': '    Y = y / y_step\n', 'new': '    y /= y_step\n    Y = y\n'},
+    {'id': 'divide-out-parameter', 'expect': 'fire', 'rule': 'C12.O6', 'file': R, 'old': '    Y = y / y_step\n', 'new': '    Y = np.divide(y, y_step, out=y)\n'},
+    {'id': 'inplace-on-copy', 'expect': 'silent', 'file': R, 'old': '    Y = y / y_step\n', 'new': '    Y = np.array(y, dtype=np.float64)\n    Y /= y_step\n'},
+    {'id': 'multiply-by-inverse-step', 'expect': 'no-alarm', 'file': R, 'old': '    Y = y / y_step\n', 'new': '    Y = np.array(y, dtype=np.float64)\n    Y *= 1.0 / y_step\n'},
+]
